@@ -20,6 +20,7 @@ case "$cmd" in
     if [ -d "/verif/harness/$c/target" ]; then cp -a "/verif/harness/$c/target" "$base/verif/harness/$c/target"; fi
     # simulator engines: hydro's trybuild prebuild fingerprints contain absolute paths, a copied one fails with
     # "unexpected recompilation in final build" -> drop the simulator's own build output (it is rebuilt on demand)
+    case "$c" in vf_hydro_sim*) rm -rf "$base/verif/harness/$c/target/release/build/$c-"* "$base/verif/harness/$c/target/release/.fingerprint/$c-"* ;; esac
     rm -rf "$base/verif/harness/$c/target/jobs" "$base/verif/harness/$c/target/debug" "$base/verif/harness/$c/target/hydro_trybuild" "$base/verif/harness/$c/target/build-coordination.log"
   done
   echo "$base"
